@@ -139,6 +139,17 @@ def write_case(case, d, order=None, with_empty=False):
             with open(p, "w") as f:
                 f.write("\n".join(lines) + "\n")
             args = ["-c", p]
+            if len(case["streams"]) % 2 == 0:
+                # the trace directory also holds a table of its own (ovnisync's default output), with other,
+                # stale offsets: the table named with -c is the one to use
+                stale = [lines[0]]
+                for l in lines[1:]:
+                    f_ = l.split()
+                    if len(f_) == 5:
+                        f_[2] = f_[3] = str(int(f_[2]) + 54321)
+                        stale.append(" ".join(f_))
+                with open(os.path.join(d, "clock-offsets.txt"), "w") as f:
+                    f.write("\n".join(stale) + "\n")
     return args
 
 
